@@ -499,6 +499,30 @@ pub fn check_step(cfg: &SpecCfg, obs: &StepObs, focus: &Focus) -> (Vec<Finding>,
             });
         }
     }
+    // --- capability negotiation flag (registration is suspended while it is open)
+    if focus.actor {
+        if let Some(want) = exp.cap_open_after {
+            if let Some(Some(pi)) = obs.post_infos.get(obs_actor) {
+                if obs.post_life[obs_actor] == Life::Live && pi.caps_negotation != want {
+                    out.push(Finding {
+                        sig: format!("{}:cap-negotiation", verb),
+                        detail: format!("after {:?} the capability negotiation should be {} but is {}", obs.act.render(), if want { "open" } else { "closed" }, if pi.caps_negotation { "open" } else { "closed" }),
+                    });
+                }
+            }
+        }
+        // a 001 must never appear where the Spec forbids completion, also when the
+        // actor's other reply lines are not compared
+        if exp.no_welcome && exp.actor_unchecked {
+            let server = cfg.server.as_str();
+            if parse_lines(&obs.lines[obs_actor]).iter().any(|m| m.prefix.as_deref() == Some(server) && m.cmd == "001") {
+                out.push(Finding {
+                    sig: format!("{}:welcome", verb),
+                    detail: "registration completed although the conditions are not met (001 sent)".into(),
+                });
+            }
+        }
+    }
     // --- endings
     if focus.closes {
         for s in 0..obs.post_life.len() {
